@@ -283,6 +283,30 @@ func (s *InMemoryStore) UpdateOffsets(ctx context.Context, topic string, partiti
 	return nil
 }
 
+// MaxTopicNameLength is the longest topic name Kafka accepts.
+const MaxTopicNameLength = 249
+
+// ValidateTopicName reports whether name is a legal Kafka topic name: 1 to 249
+// characters out of [a-zA-Z0-9._-], and neither "." nor "..". Topic names are
+// embedded verbatim in S3 object keys (joined with path.Join, which resolves
+// "." / ".." segments and collapses slashes) and in etcd and in-memory keys
+// (joined with "/" and ":"), so any other name can alias the storage or the
+// metadata of a different topic.
+func ValidateTopicName(name string) error {
+	if name == "" || name == "." || name == ".." || len(name) > MaxTopicNameLength {
+		return ErrInvalidTopic
+	}
+	for i := 0; i < len(name); i++ {
+		c := name[i]
+		switch {
+		case c >= 'a' && c <= 'z', c >= 'A' && c <= 'Z', c >= '0' && c <= '9', c == '.', c == '_', c == '-':
+		default:
+			return ErrInvalidTopic
+		}
+	}
+	return nil
+}
+
 func partitionKey(topic string, partition int32) string {
 	return fmt.Sprintf("%s:%d", topic, partition)
 }
@@ -308,6 +332,9 @@ func (s *InMemoryStore) CreateTopic(ctx context.Context, spec TopicSpec) (*proto
 	}
 	if spec.Name == "" || spec.NumPartitions <= 0 {
 		return nil, ErrInvalidTopic
+	}
+	if err := ValidateTopicName(spec.Name); err != nil {
+		return nil, err
 	}
 	if spec.ReplicationFactor <= 0 {
 		spec.ReplicationFactor = 1
